@@ -346,6 +346,81 @@ theorem rotCode_proper (a : ℝ) :
   exact ⟨⟨rotY_lorentz a, rotY_det a⟩, ⟨rotY_lorentz a, rotY_det a⟩,
     ⟨rotZ_lorentz a, rotZ_det a⟩, ⟨rotZ_lorentz a, rotZ_det a⟩⟩
 
+/-! ## Compound arguments: the printed templates keep their argument holes atomic
+
+Every `_numpycode` template of lorentz.py splices the PRINTED text of its arguments into a string.
+That is only right if each hole ends up as an atom or parenthesised — otherwise an argument that
+prints as a sum loses its parentheses (`-{beta}*{gamma}` with `beta = b1 - b2`). The families
+below are regenerated from instances whose argument is a difference (`b1 - b2`), a negated quotient
+(`-b1/b2`) and a power (`b1**2`) — one representative per precedence class of printed expressions —
+and, for array arguments, a sum of arrays `p + q`. The generated code (cse off / on) equals the
+explicit matrix AT the compound argument. -/
+
+theorem boostZAddCode_eq (b1 b2 : ℝ) :
+    boostZAddCode0 b1 b2 = boostZEx (b1 - b2) ∧ boostZAddCode1 b1 b2 = boostZEx (b1 - b2) := by
+  have h0 : boostZAddCode0_rad b1 b2 = boostZEx_rad (b1 - b2) := by
+    unfold boostZAddCode0_rad boostZEx_rad; ring
+  have h1 : boostZAddCode1_rad b1 b2 = boostZEx_rad (b1 - b2) := by
+    unfold boostZAddCode1_rad boostZEx_rad; ring
+  constructor <;> c08_mat_ext <;> (try simp only [h0, h1]) <;> ring
+
+theorem boostZMulCode_eq (b1 b2 : ℝ) :
+    boostZMulCode0 b1 b2 = boostZEx (-b1 / b2) ∧ boostZMulCode1 b1 b2 = boostZEx (-b1 / b2) := by
+  have h0 : boostZMulCode0_rad b1 b2 = boostZEx_rad (-b1 / b2) := by
+    unfold boostZMulCode0_rad boostZEx_rad; ring
+  have h1 : boostZMulCode1_rad b1 b2 = boostZEx_rad (-b1 / b2) := by
+    unfold boostZMulCode1_rad boostZEx_rad; ring
+  constructor <;> c08_mat_ext <;> (try simp only [h0, h1]) <;> ring
+
+theorem boostZPowCode_eq (b1 b2 : ℝ) :
+    boostZPowCode0 b1 b2 = boostZEx (b1 ^ 2) ∧ boostZPowCode1 b1 b2 = boostZEx (b1 ^ 2) := by
+  have h0 : boostZPowCode0_rad b1 b2 = boostZEx_rad (b1 ^ 2) := by
+    unfold boostZPowCode0_rad boostZEx_rad; ring
+  have h1 : boostZPowCode1_rad b1 b2 = boostZEx_rad (b1 ^ 2) := by
+    unfold boostZPowCode1_rad boostZEx_rad; ring
+  constructor <;> c08_mat_ext <;> (try simp only [h0, h1]) <;> ring
+
+theorem rotAddCode_eq (b1 b2 : ℝ) :
+    (rotYAddCode0 b1 b2 = rotYEx (b1 - b2) ∧ rotYAddCode1 b1 b2 = rotYEx (b1 - b2))
+      ∧ (rotZAddCode0 b1 b2 = rotZEx (b1 - b2) ∧ rotZAddCode1 b1 b2 = rotZEx (b1 - b2)) := by
+  have h : b1 + (-1 : ℝ) * b2 = b1 - b2 := by ring
+  refine ⟨⟨?_, ?_⟩, ⟨?_, ?_⟩⟩ <;> c08_mat_ext <;> (try simp only [h]) <;> ring
+
+theorem rotMulCode_eq (b1 b2 : ℝ) :
+    (rotYMulCode0 b1 b2 = rotYEx (-b1 / b2) ∧ rotYMulCode1 b1 b2 = rotYEx (-b1 / b2))
+      ∧ (rotZMulCode0 b1 b2 = rotZEx (-b1 / b2) ∧ rotZMulCode1 b1 b2 = rotZEx (-b1 / b2)) := by
+  have h : -b1 / b2 = -(b1 * b2⁻¹) := by ring
+  refine ⟨⟨?_, ?_⟩, ⟨?_, ?_⟩⟩ <;> c08_mat_ext <;>
+    (try simp only [h, Real.cos_neg, Real.sin_neg]) <;> ring
+
+theorem rotPowCode_eq (b1 b2 : ℝ) :
+    (rotYPowCode0 b1 b2 = rotYEx (b1 ^ 2) ∧ rotYPowCode1 b1 b2 = rotYEx (b1 ^ 2))
+      ∧ (rotZPowCode0 b1 b2 = rotZEx (b1 ^ 2) ∧ rotZPowCode1 b1 b2 = rotZEx (b1 ^ 2)) := by
+  refine ⟨⟨?_, ?_⟩, ⟨?_, ?_⟩⟩ <;> c08_mat_ext <;> ring
+
+/-- `BoostMatrix(ArraySum(p, q))`: the code (`(p + q)[:, k]`, `sum((p + q)[:, 1:]**2, axis=1)`) is the
+boost matrix of the summed momentum. -/
+theorem boostSumCode_eq (E px py pz Eq qx qy qz : ℝ) :
+    boostSumCode0 E px py pz Eq qx qy qz = boostEx (E + Eq) (px + qx) (py + qy) (pz + qz)
+      ∧ boostSumCode1 E px py pz Eq qx qy qz = boostEx (E + Eq) (px + qx) (py + qy) (pz + qz) := by
+  have h0 : boostSumCode0_rad E px py pz Eq qx qy qz
+      = boostEx_rad (E + Eq) (px + qx) (py + qy) (pz + qz) := by
+    unfold boostSumCode0_rad boostEx_rad; ring
+  have h1 : boostSumCode1_rad E px py pz Eq qx qy qz
+      = boostEx_rad (E + Eq) (px + qx) (py + qy) (pz + qz) := by
+    unfold boostSumCode1_rad boostEx_rad; ring
+  constructor <;> c08_mat_ext <;> (try simp only [h0, h1]) <;>
+    (generalize E + Eq = e; generalize px + qx = x; generalize py + qy = y; generalize pz + qz = z) <;>
+    ring
+
+theorem negMomSumCode_eq (E px py pz Eq qx qy qz : ℝ) :
+    negMomSumCode0 E px py pz Eq qx qy qz = ![E + Eq, -(px + qx), -(py + qy), -(pz + qz)]
+      ∧ negMomSumCode1 E px py pz Eq qx qy qz = ![E + Eq, -(px + qx), -(py + qy), -(pz + qz)] := by
+  constructor <;> c08_vec_ext <;> ring
+
+theorem metricSumCode_eq : metricSumCode0 = metricEx ∧ metricSumCode1 = metricEx := by
+  constructor <;> c08_mat_ext <;> ring
+
 /-! ## Generated einsum code (ArrayMultiplication / MatrixMultiplication), n = 2 and 3 arrays -/
 
 /-- The code generated for `NegativeMomentum(p)` (einsum of the metric with `p`) is `(E, −p⃗)`. -/
